@@ -58,6 +58,24 @@ def real_streams(fedjax, dss, hp):
   return [[[int(i) for i in b['idx']] for b in ds.shuffle_repeat_batch(hp)] for ds in dss]
 
 
+def stream_shape_problem(h, n, stream):
+  """The documented shape of a client's shuffled batch stream (ShuffleBatch.tla, DeclSteps): as few batches as go over the
+  dataset `epochs` times (dropping the remainder: as many full batches as fit), capped by num_steps; every batch full.
+  Returns None or a description of the deviation."""
+  bs, e, st, drop = h['bs'], h['epochs'], h['steps'], h['drop']
+  if e is None:
+    want = st
+  else:
+    total = n * e
+    from_epochs = total // bs if drop else -(-total // bs)
+    want = from_epochs if st is None else min(st, from_epochs)
+  if len(stream) != want:
+    return f'{len(stream)} batches, the documented number for N={n}, {h} is {want}'
+  if any(len(b) != bs for b in stream):
+    return f'batch sizes {[len(b) for b in stream]}, every batch holds batch_size={bs} rows'
+  return None
+
+
 def hparams(fedjax, h):
   return fedjax.ShuffleRepeatBatchHParams(batch_size=h['bs'], num_epochs=h['epochs'], num_steps=h['steps'], drop_remainder=h['drop'],
                                           seed=h['seed'], skip_shuffle=h.get('skip', False))
